@@ -443,7 +443,7 @@ func runClient(sc clientScript) (q []int, taken []int, log []string, hang bool, 
 	}
 	select {
 	case <-finished:
-	case <-time.After(8 * time.Second):
+	case <-time.After(25 * time.Second):
 		hang = true
 	}
 	stopLatency := time.Since(stopAt)
@@ -628,7 +628,7 @@ func clientOracle(line string) string {
 		f := strings.Split(e, ":")
 		switch f[0] {
 		case "HANG":
-			return "[key=client-hang] the client did not finish within 8 s of the stop request"
+			return "[key=client-hang] the client did not finish within 25 s of the stop request"
 		case "s", "e":
 			cnum, _ := strconv.Atoi(f[2])
 			if prev, ok := lastSent[f[1]]; ok && prev >= cnum {
